@@ -53,6 +53,29 @@ pub fn gen(rng: &mut Rng, n: usize, thorough: bool, emit: &mut dyn FnMut(String)
             }
         }
     }
+    // limits in the upper half of the u64 range (2^63 … u64::MAX): never roll, accounting stays exact
+    for limit in [(1u64 << 63) - 1, 1 << 63, (1 << 63) + 1, u64::MAX] {
+        for pre in [None, Some(0u64), Some(5)] {
+            for append in [true, false] {
+                let case = Case {
+                    append,
+                    pre_active: pre,
+                    pre_arch: vec![],
+                    trig: TrigSpec::Size(limit),
+                    roll: RollSpec::Fw { base: 1, count: 2, pat: 0 },
+                    clock0: 1_700_000_000,
+                };
+                let ops = vec![
+                    RecSpec::Bin { id: 1, sizes: vec![0] }.render(),
+                    RecSpec::Bin { id: 2, sizes: vec![1] }.render(),
+                    RecSpec::Bin { id: 3, sizes: vec![1500] }.render(),
+                    "r".to_owned(),
+                    RecSpec::Bin { id: 4, sizes: vec![3, 4] }.render(),
+                ];
+                emit(format!("seq\t{}\t{}", case.render(), enc_list(",", &ops)));
+            }
+        }
+    }
     for _ in 0..n {
         emit(c05::gen_seq_case(rng, thorough, TrigChoice::Size));
     }
